@@ -170,20 +170,20 @@ UNION_COLS_IN_WORKLOAD = os.environ.get('VERIF_C36_UNION_COLS', '1') == '1'
 # field into every child, so the elements of the `data` array carry `__row_uid` / `__uid`; see the M7 validation record at the bottom).
 # Turn on (VERIF_C36_MULTI_WAY_ZIP_JOIN=1, or flip the default) once the repair / a known finding
 # `sent-ir/...` is registered.
-MULTI_WAY_ZIP_JOIN_IN_WORKLOAD = os.environ.get('VERIF_C36_MULTI_WAY_ZIP_JOIN', '0') == '1'
+MULTI_WAY_ZIP_JOIN_IN_WORKLOAD = os.environ.get('VERIF_C36_MULTI_WAY_ZIP_JOIN', '1') == '1'
 
 # Randomness-consuming table operations on top of MatrixTable.entries() in the wide table workload.  OFF by default for the same reason:
 # MatrixEntriesTable._handle_randomness with a uid requested asks its child for `__col_uid` and never drops it, so
 # `mt.entries().filter(hl.rand_bool(.5))` / `.sample(p)` / `.annotate(r=hl.rand_unif(0, 1))` send a table whose rows carry an extra
 # `__col_uid` field (VERIF_C36_ENTRIES_UNDER_RANDOMNESS=1 to turn on; see the M7 validation record at the bottom).
-ENTRIES_UNDER_RANDOMNESS_IN_WORKLOAD = os.environ.get('VERIF_C36_ENTRIES_UNDER_RANDOMNESS', '0') == '1'
+ENTRIES_UNDER_RANDOMNESS_IN_WORKLOAD = os.environ.get('VERIF_C36_ENTRIES_UNDER_RANDOMNESS', '1') == '1'
 
 # Seeded randomness in the KEY expression of Table.group_by(...).aggregate(...) in the wide table workload.  OFF by default, same reason:
 # TableKeyByAndAggregate._handle_randomness assigns the re-bound key expression to `expr` instead of `new_key`
 # (`expr = ir.Let('__rng_state', ..., new_key)`), so the node that is sent aggregates the KEY: its row type is key ++ key (the engine's
 # `keyType ++ expr.typ` rejects the overlap) and every aggregated field the front end reports is gone
 # (VERIF_C36_RANDOM_GROUP_KEY=1 to turn on; see the M7 validation record at the bottom).
-RANDOM_GROUP_KEY_IN_WORKLOAD = os.environ.get('VERIF_C36_RANDOM_GROUP_KEY', '0') == '1'
+RANDOM_GROUP_KEY_IN_WORKLOAD = os.environ.get('VERIF_C36_RANDOM_GROUP_KEY', '1') == '1'
 
 # IR classes whose "rule" merely returns a type stored at construction (no derivation from children)
 VACUOUS = {'Ref', 'TopLevelReference', 'Apply', 'ApplySeeded', 'NA', 'Literal', 'EncodedLiteral', 'Cast', 'Die', 'Recur', 'JavaIR',
